@@ -22,7 +22,12 @@ pub mod c20;
 pub fn run(cfg: RunCfg, verif_dir: &str) -> i32 {
     let id = cfg.property.clone();
     let mut run = PropRun::new(cfg, verif_dir);
-    match id.as_str() {
+    // (debugging aid) VERIF_FUZZ_ONLY=1 skips the proptest / enumeration suites
+    let skip = std::env::var("VERIF_FUZZ_ONLY").is_ok();
+    match if skip { "skip" } else { id.as_str() } {
+        "skip" => {
+            run.rule = "libFuzzer campaigns only (debugging run)".into();
+        }
         "C01" => c01_04::run_c01(&mut run),
         "C02" => c01_04::run_c02(&mut run),
         "C03" => c01_04::run_c03(&mut run),
@@ -46,6 +51,13 @@ pub fn run(cfg: RunCfg, verif_dir: &str) -> i32 {
         _ => {
             eprintln!("unknown property {id}");
             return 3;
+        }
+    }
+    // thorough tier: coverage-guided campaigns over the same generators and oracles
+    if !run.cfg.quick() && std::env::var("VERIF_NO_FUZZ").is_err() {
+        let workers = run.cfg.threads.max(1);
+        for key in crate::fuzz::suites_of(&id) {
+            crate::fuzz::campaign(&mut run, key, workers, crate::fuzz::runs_of(key));
         }
     }
     run.finish()
